@@ -20,6 +20,10 @@
  *     gr NAME W H NCOMP SEED      GRcreate + GRwriteimage + GRendaccess
  *     an KIND T R HEX             ANcreate/ANcreatef + ANwriteann + ANendaccess (KIND 0 dl,1 dd,2 fl,3 fd)
  *     putn T HEX                  Hputelement(T, Hnewref(), HEX): the library chooses the reference number
+ *     get T R                     Hgetelement of an existing element (reads while the session appends)
+ *     cp T R GT GR                copy: Hstartwrite(T, R, length of GT/GR) reserves the space, THEN Hgetelement(GT, GR)
+ *                                 reads the old element, then Hwrite + Hendaccess
+ *     vg2 NAMEA NAMEB CLASS SEED  two new Vgroups attached A, B and detached B, A (descriptors not in ref order)
  *     del T R                     Hdeldd of an existing element (sessions of the first sentence only)
  *     sdsnd NAME NT D0[xD1..]     SDcreate + SDendaccess, no data written (metadata-only session)
  *     sdgattr NAME SEED           SDsetattr on the file: a new global attribute
@@ -158,6 +162,40 @@ static int do_op(sess_t *s, char *line)
         ref = Hnewref(s->fid);
         if (ref == 0) return -1;
         return Hputelement(s->fid, (uint16)atoi(tok[1]), ref, buf, n) == FAIL ? -1 : 0;
+    }
+    if (!strcmp(tok[0], "get") && nt >= 3) {
+        int32 len;
+        if (need_h(s, 0, 0)) return -1;
+        len = Hlength(s->fid, (uint16)atoi(tok[1]), (uint16)atoi(tok[2]));
+        if (len == FAIL || len > (int32)sizeof buf) return -1;
+        return Hgetelement(s->fid, (uint16)atoi(tok[1]), (uint16)atoi(tok[2]), buf) == FAIL ? -1 : 0;
+    }
+    if (!strcmp(tok[0], "cp") && nt >= 5) {
+        int32 len, aid; int rc = 0;
+        if (need_h(s, 0, 0)) return -1;
+        len = Hlength(s->fid, (uint16)atoi(tok[3]), (uint16)atoi(tok[4]));
+        if (len == FAIL || len > (int32)sizeof buf) return -1;
+        aid = Hstartwrite(s->fid, (uint16)atoi(tok[1]), (uint16)atoi(tok[2]), len);
+        if (aid == FAIL) return -1;
+        if (Hgetelement(s->fid, (uint16)atoi(tok[3]), (uint16)atoi(tok[4]), buf) == FAIL) rc = -1;
+        if (len > 0 && Hwrite(aid, len, buf) != len) rc = -1;
+        if (Hendaccess(aid) == FAIL) rc = -1;
+        return rc;
+    }
+    if (!strcmp(tok[0], "vg2") && nt >= 5) {
+        int32 a, b; int rc = 0;
+        if (need_h(s, 0, 0)) return -1;
+        rnd_state = (unsigned)atoi(tok[4]);
+        a = Vattach(s->fid, -1, "w");
+        b = Vattach(s->fid, -1, "w");
+        if (a == FAIL || b == FAIL) return -1;
+        if (Vsetname(a, tok[1]) == FAIL || Vsetclass(a, tok[3]) == FAIL) rc = -1;
+        if (Vsetname(b, tok[2]) == FAIL || Vsetclass(b, tok[3]) == FAIL) rc = -1;
+        if (Vaddtagref(a, 700 + (int32)(rnd() % 5), 1 + (int32)(rnd() % 50)) == FAIL) rc = -1;
+        if (Vaddtagref(b, 700 + (int32)(rnd() % 5), 1 + (int32)(rnd() % 50)) == FAIL) rc = -1;
+        if (Vdetach(b) == FAIL) rc = -1;
+        if (Vdetach(a) == FAIL) rc = -1;
+        return rc;
     }
     if (!strcmp(tok[0], "del") && nt >= 3) {
         if (need_h(s, 0, 0)) return -1;
